@@ -245,6 +245,30 @@ func main() {
 		s := &session{sdk: *sdk, v1: map[string]*v1Client{}, v2: map[string]*v2Client{}, wantDump: *dump}
 		res := result{ID: scr.ID}
 		for _, op := range scr.Ops {
+			// "esk": {"$lek": k} stands for the LastEvaluatedKey observed at step k
+			if e, ok := op["esk"].(map[string]interface{}); ok {
+				if k, ok := e["$lek"].(float64); ok {
+					var lek interface{}
+					if int(k) < len(res.Obs) {
+						lek = res.Obs[int(k)]["lek"]
+					}
+					if lek == nil {
+						lek = map[string]interface{}{}
+					}
+					// plain JSON shape (the observation holds typed values)
+					if raw, err := json.Marshal(lek); err == nil {
+						var plain map[string]interface{}
+						if json.Unmarshal(raw, &plain) == nil {
+							lek = plain
+						}
+					}
+					op["esk"] = lek
+					o := s.run(op)
+					o["resolved_esk"] = lek
+					res.Obs = append(res.Obs, o)
+					continue
+				}
+			}
 			res.Obs = append(res.Obs, s.run(op))
 		}
 		b, err := json.Marshal(res)
